@@ -77,6 +77,7 @@ def setup():
         return
     warnings.simplefilter("ignore")
     os.environ.setdefault("PYTHONWARNINGS", "ignore")
+    os.environ.setdefault("DASK_SCHEDULER", "synchronous")  # no thread pools: workers are forked
     if REPO in sys.path:
         sys.path.remove(REPO)
     sys.path.insert(0, REPO)
